@@ -56,8 +56,9 @@ class FileConfig:
         self.data[key] = try_conv(value, CONVERTERS)
 
     def __delitem__(self, key):
-        if key in self.data:
-            del self.data[key]
+        # Only keys set in the file can be removed; defaults stay in place.
+        if key in self.data.maps[0]:
+            del self.data.maps[0][key]
 
     def __len__(self):
         return len(self.data)
